@@ -23,6 +23,12 @@ type c02path struct {
 	// LateRelease: QoS 2 publishers answer PUBREC with PUBREL only 6 s later (a slow link): whether the broker still
 	// completes the handshake then is its choice, but a PUBCOMP is an acknowledgement like any other
 	LateRelease bool `json:"pubrel_sent_6s_after_pubrec,omitempty"`
+	// ReleaseAtEnd: QoS 2 publishers send their PUBRELs only after the whole publish sequence (other packets of the same
+	// client are processed while the message waits in the broker)
+	ReleaseAtEnd bool `json:"pubrels_sent_after_the_sequence,omitempty"`
+	// SlowConnack: the write of the subscribers' CONNACK returns 1 s after the bytes reached the client (the client
+	// subscribes as soon as it has read them)
+	SlowConnack bool `json:"connack_write_returns_late,omitempty"`
 }
 
 func c02paths() []c02path {
@@ -60,7 +66,7 @@ func c02paths() []c02path {
 		}
 		for _, d := range depths {
 			for _, s := range seqs(d) {
-				out = append(out, c02path{v.p, v.s, s, 4, -1, false})
+				out = append(out, c02path{v.p, v.s, s, 4, -1, false, false, false})
 			}
 		}
 	}
@@ -70,7 +76,7 @@ func c02paths() []c02path {
 		for _, s := range seqs(d) {
 			for k := 0; k < d; k++ {
 				if s[k]%3 != 0 { // QoS 0 is never acknowledged
-					out = append(out, c02path{10, 9, s, 4, k, false})
+					out = append(out, c02path{10, 9, s, 4, k, false, false, false})
 				}
 			}
 		}
@@ -85,14 +91,16 @@ func c02paths() []c02path {
 			}
 			if q2 {
 				out = append(out, c02path{Prefill: 10, State: 9, Seq: s, Size: 4, FailAt: -1, LateRelease: true})
+				out = append(out, c02path{Prefill: 10, State: 9, Seq: s, Size: 4, FailAt: -1, ReleaseAtEnd: true})
 			}
+			out = append(out, c02path{Prefill: 10, State: 9, Seq: s, Size: 4, FailAt: -1, SlowConnack: true})
 		}
 	}
 	// payload sizes at the remaining-length edges of the encoder, depth <= 2
 	for _, size := range []int{1, 127, 128, 16383, 16384} {
 		for _, d := range []int{1, 2} {
 			for _, s := range seqs(d) {
-				out = append(out, c02path{0, -1, s, size, -1, false}, c02path{10, 9, s, size, -1, false})
+				out = append(out, c02path{0, -1, s, size, -1, false, false, false}, c02path{10, 9, s, size, -1, false, false, false})
 			}
 		}
 	}
@@ -106,9 +114,9 @@ func c02paths() []c02path {
 			}
 		}
 		if vk.Thorough() || p%7 == 0 || edge {
-			out = append(out, c02path{p, int64(p - 1), []int{1, 1, 1}, 4, -1, false})
+			out = append(out, c02path{p, int64(p - 1), []int{1, 1, 1}, 4, -1, false, false, false})
 			if vk.Thorough() && p%10 == 0 {
-				out = append(out, c02path{p, -1, []int{1, 1, 1}, 4, -1, false})
+				out = append(out, c02path{p, -1, []int{1, 1, 1}, 4, -1, false, false, false})
 			}
 		}
 	}
@@ -138,6 +146,9 @@ func TestC02Delivery(t *testing.T) {
 				subs := []*Client{}
 				for q := int32(0); q <= 2; q++ {
 					c := w.NewClient(fmt.Sprintf("sub-q%d", q), 1, AckAll)
+					if p.SlowConnack {
+						c.SlowNextBrokerWrite(time.Second)
+					}
 					if c.Connect(ConnectOpts{ClientID: c.Name, KeepAlive: 60}) != 0 {
 						rep.HarnessError("subscriber could not connect")
 						return
@@ -161,7 +172,7 @@ func TestC02Delivery(t *testing.T) {
 				}
 				pubs := []*Client{}
 				policy := AckAll
-				if p.LateRelease {
+				if p.LateRelease || p.ReleaseAtEnd {
 					policy = AckNone
 				}
 				for k := 0; k < 2; k++ {
@@ -206,6 +217,14 @@ func TestC02Delivery(t *testing.T) {
 						}
 					}
 					Observe(w, rep)
+				}
+				if p.ReleaseAtEnd {
+					for _, s := range all {
+						if s.qos == 2 && s.pub.Has(fmt.Sprintf("PUBREC(%d)", s.mid)) {
+							s.pub.Send(&packet.PubRel{Header: &packet.Header{}, MessageId: s.mid})
+							w.Step()
+						}
+					}
 				}
 				w.Idle(30 * time.Second)
 				Observe(w, rep)
